@@ -358,12 +358,33 @@ def boundary_cases():
 def gen_cases(rng, tier):
     exprs = []
     un_all, leaves = boundary_cases()
+    # always: the integer rounding functions over every boundary float and rational (ties, ±2^55, ±0.5 …)
+    core_set = [(op, x) for op in ROUNDERS for x in leaves if not isinstance(x, int)]
+    exprs += core_set
+    # always: the error table (zero bases/divisors/arguments of every representation)
+    zeros = [0, ("f", 0), ("neg", ("f", 0)), ("rdiv", 0, 3), ("sub", 2 ** 64, 2 ** 64)]
+    negs = [-1, -2, ("f", f2b(-1.0)), ("f", f2b(-0.5)), ("rdiv", -1, 2), -(2 ** 64), ("f", f2b(-1e300)), ("f", 2 ** 63 + 1)]
+    tiny = [("rdiv", 1, 10 ** 400), ("rdiv", 1, 2 ** 1080), ("rdiv", -1, 2 ** 1076)]
+    nums = [1, -1, ("f", f2b(1.0)), ("f", f2b(-2.5)), ("rdiv", 1, 3), 2 ** 64, ("f", MAX_F), ("f", 1)]
+    for z in zeros:
+        for n in negs:
+            exprs += [("pow", z, n), ("ipow", z, n)]
+        for z2 in zeros:
+            exprs += [("atan2", z, z2), ("div", z, z2), ("pow", z, z2), ("ipow", z, z2)]
+        for n in nums:
+            exprs += [("div", n, z), ("atan2", n, z), ("atan2", z, n), ("rdiv", n, z)]
+        exprs += [("log", z), ("sqrt", z), ("exp", z)]
+    for t in tiny:
+        for n in nums:
+            exprs += [("div", n, t), ("mul", n, t), ("pow", t, n)]
+    for n in negs:
+        exprs += [("sqrt", n), ("log", n), ("ipow", n, ("f", f2b(0.5))), ("ipow", n, ("rdiv", 1, 3)), ("pow", n, ("f", f2b(0.5)))]
     if tier == "thorough":
         exprs += un_all
-        n_pairs, n_rand = 60000, 60000
+        n_pairs, n_rand = 40000, 40000
     else:
-        exprs += rng.sample(un_all, 700)
-        n_pairs, n_rand = 1300, 1100
+        exprs += rng.sample(un_all, 400)
+        n_pairs, n_rand = 700, 600
     for _ in range(n_pairs):
         op = rng.choice(sorted(set(BIN_W)))
         a = rng.choice(leaves) if rng.random() < 0.6 else rand_leaf(rng)
@@ -491,7 +512,7 @@ def run_pairs(cases):
 
 def transient(r):
     """results that only say the harness process was starved/killed under machine load"""
-    return r in ("timeout", "missing") or r.startswith(("abort(", "skipped(")) or (
+    return r in ("timeout", "missing") or r.startswith(("abort(", "skipped(", "exception(")) or (
         r.startswith("panic(") and "should be in the range" not in r and "not yet implemented" not in r)
 
 
@@ -625,7 +646,7 @@ def run(ctx):
     witnesses = dict(zip(need, classify_all([mismatches[k][0]["tree"] for k in need]))) if need else {}
     for k, (c, iv, mv, pv) in enumerate(mismatches):
         rop = c["expr"].split(" ")[1] if c["expr"].startswith("(") else "leaf"
-        case = {kk: c[kk] for kk in ("id", "expr", "prolog", "impl", "model") if kk in c}
+        case = {kk: c[kk] for kk in ("id", "expr", "prolog", "impl", "model", "probe") if kk in c}
         cls, wit = None, None
         if c.get("probe"):
             cls = c["probe"]
